@@ -164,3 +164,16 @@ M("c14.rts-circumpolar", "C14", C, "    if abs(hh0) > 1.0:\n        return (None
 M("c14.eot-const", "C14", S, "e = l0() - 0.0057183 - alpha()", "e = l0() - 0.57183 - alpha()")
 M("c14.eot-x4", "C14", S, "        e *= 4.0\n", "        e *= 4.0\n        e = e + 1.2 if e > 16.0 else e\n")
 M("c14.season-range", "C14", S, "        elif (year >= 1000) and (year <= 3000):", "        elif (year >= 1000) and (year <= 3100):")
+# ---- C15
+MO = "pymeeus/Moon.py"
+M("c15.12.3685", "C15", MO, "k = round((year - 2000.0) * 12.3685, 0)", "k = round((year - 2000.0) * 12.3865, 0)")
+M("c15.round->int", "C15", MO, "k = round((year - 2000.0) * 12.3685, 0)", "k = float(int((year - 2000.0) * 12.3685))", note="returns the previous instead of the nearest event: still a real event within 1.6 months near 2000; survivor unless the far-era drift pushes it over")
+M("c15.last-0.57", "C15", MO, "            k += 0.75\n", "            k += 0.57\n")
+M("c15.synodic-month", "C15", MO, "jde = (2451550.09766 + 29.530588861 * k", "jde = (2451550.09766 + 29.530858861 * k")
+M("c15.-0.4072", "C15", MO, "-0.4072", "0.4072")
+M("c15.distance-term", "C15", MO, "-20905355", "-29005355")
+M("c15.385000", "C15", MO, "Delta = 385000.56 + (sigmar / 1000.0)", "Delta = 358000.56 + (sigmar / 1000.0)")
+M("c15.6378", "C15", MO, "ppii = asin(6378.14 / Delta)", "ppii = asin(6738.14 / Delta)")
+M("c15.illum-term", "C15", MO, "i = Angle(180.0 - D - 6.289 * sin(Mprimer)", "i = Angle(180.0 - D - 16.289 * sin(Mprimer)")
+M("c15.node-13.4223", "C15", MO, "k = round((year - 2000.05) * 13.4223, 0)", "k = round((year - 2000.05) * 13.2423, 0)")
+M("c15.decl-south-sign", "C15", MO, "jde += 2451562.5897", "jde += 2451563.5897")
